@@ -14,11 +14,13 @@ package main
 import (
 	"context"
 	"encoding/json"
+	"fmt"
 	"math/rand"
 	"os"
 	"sort"
 	"strconv"
 	"strings"
+	"sync"
 
 	metav1 "k8s.io/apimachinery/pkg/apis/meta/v1"
 	"k8s.io/apiserver/pkg/admission"
@@ -327,6 +329,103 @@ func randomCases(cases []tcase, n int, seed int64) []tcase {
 	return out
 }
 
+// ---- a request being matched WHILE the policy list is replaced (ClusterInfo.Sync on the controller goroutine) ----
+
+// gatedAttrs pauses inside its k-th getter call: the matcher is then in the middle of evaluating a rule
+type gatedAttrs struct {
+	authorizer.Attributes
+	mu      sync.Mutex
+	n, at   int
+	paused  chan struct{}
+	release chan struct{}
+}
+
+func (g *gatedAttrs) tick() {
+	g.mu.Lock()
+	g.n++
+	hit := g.n == g.at
+	g.mu.Unlock()
+	if hit {
+		close(g.paused)
+		<-g.release
+	}
+}
+func (g *gatedAttrs) GetUser() user.Info      { g.tick(); return g.Attributes.GetUser() }
+func (g *gatedAttrs) GetVerb() string         { g.tick(); return g.Attributes.GetVerb() }
+func (g *gatedAttrs) GetAPIGroup() string     { g.tick(); return g.Attributes.GetAPIGroup() }
+func (g *gatedAttrs) GetResource() string     { g.tick(); return g.Attributes.GetResource() }
+func (g *gatedAttrs) GetSubresource() string  { g.tick(); return g.Attributes.GetSubresource() }
+func (g *gatedAttrs) GetName() string         { g.tick(); return g.Attributes.GetName() }
+func (g *gatedAttrs) IsResourceRequest() bool { g.tick(); return g.Attributes.IsResourceRequest() }
+func (g *gatedAttrs) GetPath() string         { g.tick(); return g.Attributes.GetPath() }
+
+type raceResult struct {
+	ID      int      `json:"id"`
+	A       [][]rule `json:"a"`
+	B       [][]rule `json:"b"`
+	Req     req      `json:"req"`
+	At      int      `json:"at"`
+	Paused  bool     `json:"paused"`
+	GotList string   `json:"gotList"` // a | b | none | ?
+	GotIdx  int      `json:"gotIdx"`
+	Name    string   `json:"name"`
+}
+
+func namedPolicies(ps [][]rule, prefix string) []proxyv1alpha1.DispatchPolicy {
+	out := toPolicies(ps)
+	for i := range out {
+		out[i].FlowControlSchemaName = prefix + itoa(i+1)
+	}
+	return out
+}
+
+func raceOne(id int, a, b tcase, at int) raceResult {
+	r := raceResult{ID: id, A: a.Policies, B: b.Policies, Req: a.Req, At: at, GotList: "?"}
+	ci := clusters.NewEmptyClusterInfo("c1", nil, nil, "", nil)
+	defer ci.Stop()
+	mk := func(ps []proxyv1alpha1.DispatchPolicy) *proxyv1alpha1.UpstreamCluster {
+		uc := &proxyv1alpha1.UpstreamCluster{ObjectMeta: metav1.ObjectMeta{Name: "c1"}}
+		uc.Spec.DispatchPolicies = ps
+		return uc
+	}
+	if err := ci.Sync(mk(namedPolicies(a.Policies, "a"))); err != nil {
+		vio.Die("sync a: %v", err)
+	}
+	g := &gatedAttrs{Attributes: toAttrs(a.Req), at: at, paused: make(chan struct{}), release: make(chan struct{})}
+	done := make(chan struct{})
+	go func() {
+		defer close(done)
+		defer func() {
+			if p := recover(); p != nil { // the matcher itself fell over: an outcome (never acceptable), not a harness failure
+				r.GotList, r.Name = "panic", fmt.Sprint(p)
+			}
+		}()
+		picker, err := ci.MatchAttributes(g)
+		if err != nil {
+			if err == clusters.ErrNoRouterRuleMatches {
+				r.GotList = "none"
+			}
+			return
+		}
+		r.Name = picker.FlowControlName() // the policy the request is handled under (its flow control, its upstreams)
+		if len(r.Name) >= 2 && (r.Name[0] == 'a' || r.Name[0] == 'b') {
+			r.GotList = r.Name[:1]
+			r.GotIdx, _ = strconv.Atoi(r.Name[1:])
+		}
+	}()
+	select {
+	case <-g.paused:
+		r.Paused = true
+		if err := ci.Sync(mk(namedPolicies(b.Policies, "b"))); err != nil {
+			vio.Die("sync b: %v", err)
+		}
+		close(g.release)
+		<-done
+	case <-done:
+	}
+	return r
+}
+
 type randResult struct {
 	ID       int      `json:"id"`
 	Policies [][]rule `json:"policies"`
@@ -338,6 +437,47 @@ type randResult struct {
 func main() {
 	if len(os.Args) < 3 {
 		vio.Die("usage: routing cases out [reqs] | routing -random N SEED cases out")
+	}
+	if os.Args[1] == "-race" {
+		n, _ := strconv.Atoi(os.Args[2])
+		seed, _ := strconv.ParseInt(os.Args[3], 10, 64)
+		var cases []tcase
+		if err := vio.ReadLines(os.Args[4], func(b []byte) error {
+			var c tcase
+			if err := json.Unmarshal(b, &c); err != nil {
+				return err
+			}
+			cases = append(cases, c)
+			return nil
+		}); err != nil {
+			vio.Die("read cases: %v", err)
+		}
+		w, err := vio.NewWriter(os.Args[5])
+		if err != nil {
+			vio.Die("out: %v", err)
+		}
+		defer w.Close()
+		rng := rand.New(rand.NewSource(seed + 7))
+		rc := randomCases(cases, 2*n, seed+7)
+		for i := 0; i < n; i++ {
+			a, b := rc[2*i], rc[2*i+1]
+			for len(a.Policies) == 0 { // something to iterate over
+				a.Policies = rc[rng.Intn(len(rc))].Policies
+			}
+			switch rng.Intn(3) { // the new list: same length, shorter (fits the old one), anything
+			case 0:
+				for len(b.Policies) < len(a.Policies) {
+					b.Policies = append(b.Policies, rc[rng.Intn(len(rc))].Policies...)
+				}
+				b.Policies = b.Policies[:len(a.Policies)]
+			case 1:
+				if len(b.Policies) > len(a.Policies) {
+					b.Policies = b.Policies[:len(a.Policies)]
+				}
+			}
+			w.Write(raceOne(i+1, a, b, 1+rng.Intn(14)))
+		}
+		return
 	}
 	if os.Args[1] == "-random" {
 		n, _ := strconv.Atoi(os.Args[2])
